@@ -1,5 +1,5 @@
-(* C10/Proofs5.v -- networkTopology's inner loop against Cassandra's NetworkTopologyStrategy, for a walk
-   that meets every host at most once (one token per host). *)
+(* C10/Proofs5.v -- networkTopology's inner loop (with seenHosts) against Cassandra's NetworkTopologyStrategy,
+   for every walk: any number of tokens per host. *)
 From GocqlV Require Import Lib.Base C10.Model C10.Spec C10.Proofs1 C10.Proofs2 C10.Proofs3 C10.Proofs4.
 From Coq Require Import Sorting.Permutation.
 Open Scope Z_scope.
@@ -15,24 +15,6 @@ Proof. intros H. unfold lhs_add. destruct (lhs_has x s) eqn:E; [apply lhs_has_In
 
 Lemma set_add_fresh x s : smem x s = false -> set_add x s = s ++ [x].
 Proof. intros H. unfold set_add. change (set_has x s) with (smem x s). rewrite H. reflexivity. Qed.
-
-Lemma firstn_skipn_disjoint {A} n (l : list A) x : NoDup l -> In x (firstn n l) -> In x (skipn n l) -> False.
-Proof.
-  intros Hnd H1 H2. rewrite <- (firstn_skipn n l) in Hnd.
-  revert Hnd H1 H2. generalize (firstn n l) (skipn n l). intros a b. induction a as [|y a IH]; simpl; intros Hnd H1 H2; [exact H1|].
-  inversion Hnd as [|? ? Hy Hnd']; subst. destruct H1 as [->|H1].
-  - apply Hy. apply in_or_app. right. exact H2.
-  - apply IH; assumption.
-Qed.
-
-Lemma NoDup_app_intro {A} (a b : list A) :
-  NoDup a -> NoDup b -> (forall x, In x a -> In x b -> False) -> NoDup (a ++ b).
-Proof.
-  induction a as [|y a IH]; simpl; intros Ha Hb Hd; [exact Hb|].
-  inversion Ha as [|? ? Hy Ha']; subst. constructor.
-  - rewrite in_app_iff. intros [H|H]; [contradiction|]. apply (Hd y); [left; reflexivity|exact H].
-  - apply IH; auto. intros x Hx1 Hx2. apply (Hd x); [right; exact Hx1|exact Hx2].
-Qed.
 
 Section Refine.
   Variable info : Z -> hinfo.
@@ -120,78 +102,161 @@ Section Refine.
         * intros y Hy. apply in_app_iff in Hy. destruct Hy as [Hy|[<-|[]]]; [apply Hincl; exact Hy|exact Hep].
   Qed.
 
+  Lemma take_skipped_suff rf dc sk reps : s_suff rf dc reps = true -> take_skipped dc_of endpoints rf dc sk reps = reps.
+  Proof. intros H. destruct sk; simpl; [reflexivity|]. rewrite H. reflexivity. Qed.
+
+  Definition notin (reps : list Z) (x : Z) : bool := negb (lhs_has x reps).
+
+  Lemma notin_true reps x : notin reps x = true <-> ~ In x reps.
+  Proof. unfold notin. rewrite negb_true_iff. apply zmem_false. Qed.
+
+  Lemma filter_notin_more reps add l :
+    (forall x, In x l -> ~ In x add) -> filter (notin (reps ++ add)) l = filter (notin reps) l.
+  Proof.
+    intros H. apply filter_ext_in'. intros x Hx. unfold notin, lhs_has. rewrite existsb_app.
+    assert (E : existsb (Z.eqb x) add = false) by (apply zmem_false; apply H; exact Hx).
+    rewrite E, orb_false_r. reflexivity.
+  Qed.
+
+  (* members of the replica set met among the skipped endpoints do not count *)
+  Lemma take_skipped_filter rf dc sk : forall reps,
+    NoDup sk -> take_skipped dc_of endpoints rf dc sk reps = take_skipped dc_of endpoints rf dc (filter (notin reps) sk) reps.
+  Proof.
+    induction sk as [|x sk IH]; intros reps Hnd; simpl; [reflexivity|].
+    inversion Hnd as [|? ? Hx Hnd']; subst.
+    destruct (s_suff rf dc reps) eqn:Es.
+    - symmetry. apply take_skipped_suff. exact Es.
+    - destruct (notin reps x) eqn:En.
+      + simpl. rewrite Es. apply notin_true in En. rewrite (lhs_add_fresh x reps En).
+        rewrite IH by exact Hnd'. f_equal. apply filter_notin_more. intros y Hy [<-|[]]. contradiction.
+      + unfold notin in En. apply negb_false_iff in En. unfold lhs_add. rewrite En. apply IH. exact Hnd'.
+  Qed.
+
+  Lemma drain_exhaust sk : forall r rf, r + Z.of_nat (length (drain sk r rf)) < rf -> length (drain sk r rf) = length sk.
+  Proof.
+    induction sk as [|x sk IH]; intros r rf H; simpl in *; [reflexivity|].
+    destruct (r <? rf) eqn:E; simpl in *; [|lia]. f_equal. apply IH. lia.
+  Qed.
+
+  Lemma In_firstn_or_skipn {A} n (l : list A) x : In x l -> In x (firstn n l) \/ In x (skipn n l).
+  Proof. intros H. rewrite <- (firstn_skipn n l) in H. apply in_app_iff in H. exact H. Qed.
+
   (* ---- the simulation --------------------------------------------------------------------------- *)
-  Record rel (m : nts_state) (s : nts) : Prop := {
+  (* Cassandra's skipped sets may also hold endpoints that are replicas already (met again through another
+     token while their rack was in use); the driver passes over such endpoints, so its lists are those sets
+     without the replicas *)
+  Record rel (visited : list Z) (m : nts_state) (s : nts) : Prop := {
     rl_reps : ns_replicas m = s_replicas s;
     rl_seen : forall dc, getl (ns_seen m) dc = s_seen s dc;
-    rl_skip : forall dc, length (getl (ns_seen m) dc) <> length (getl dcr dc) -> getl (ns_skipped m) dc = s_skipped s dc }.
+    rl_skip : forall dc, length (getl (ns_seen m) dc) <> length (getl dcr dc) ->
+              getl (ns_skipped m) dc = filter (notin (s_replicas s)) (s_skipped s dc);
+    rl_sk_nodup : forall dc, NoDup (s_skipped s dc);
+    rl_sk_vis : forall dc, incl (s_skipped s dc) visited;
+    rl_sk_dc : forall dc x, In x (s_skipped s dc) -> dc_of x = dc }.
 
-  Record fresh (m : nts_state) (rest : list Z) : Prop := {
-    fr_nodup : NoDup (ns_replicas m);
-    fr_incl : incl (ns_replicas m) endpoints;
-    fr_rest : forall x, In x rest -> ~ In x (ns_replicas m) /\ forall dc, ~ In x (getl (ns_skipped m) dc);
-    fr_sk_nodup : forall dc, NoDup (getl (ns_skipped m) dc);
-    fr_sk_disj : forall dc x, In x (getl (ns_skipped m) dc) -> ~ In x (ns_replicas m);
-    fr_sk_incl : forall dc, incl (getl (ns_skipped m) dc) endpoints }.
+  (* what the driver knows about the hosts it has been through *)
+  Record kinv (m : nts_state) (visited : list Z) : Prop := {
+    ki_vis : forall h, In h visited -> getz dcs (dc_of h) <> 0 -> getz (ns_count m) (dc_of h) < getz dcs (dc_of h) ->
+             In (rack_of h) (getl (ns_seen m) (dc_of h))
+             /\ (In h (ns_replicas m) \/ In h (getl (ns_skipped m) (dc_of h)));
+    ki_drained : forall dc, length (getl (ns_seen m) dc) = length (getl dcr dc) ->
+                 getz (ns_count m) dc < getz dcs dc -> getl (ns_skipped m) dc = [] }.
 
-  Lemma fresh_tail m h rest : fresh m (h :: rest) -> fresh m rest.
-  Proof. intros [H1 H2 H3 H4 H5 H6]. split; auto. intros x Hx. apply H3. right. exact Hx. Qed.
+  Lemma rel_more visited m s h : rel visited m s -> rel (h :: visited) m s.
+  Proof. intros [H1 H2 H3 H4 H5 H6]. split; auto. intros dc x Hx. right. apply (H5 dc). exact Hx. Qed.
 
   Lemma upd_same {A} (f : name -> A) k v : upd f k v k = v.
   Proof. unfold upd, name_eqb. rewrite zlist_eqb_refl. reflexivity. Qed.
   Lemma upd_other {A} (f : name -> A) k k' v : k' <> k -> upd f k v k' = f k'.
   Proof. intros H. unfold upd, name_eqb. rewrite zlist_eqb_neq by exact H. reflexivity. Qed.
 
-  (* an iteration that changes nothing in the driver changes nothing in Cassandra's loop *)
-  Lemma visit_inactive m s h rest :
-    minv info dcs dcr m -> rel m s -> fresh m (h :: rest) -> In h endpoints ->
+  Lemma rack_known h : In h endpoints -> In (rack_of h) (getl dcr (dc_of h)).
+  Proof.
+    intros Hep. apply (ri_in info _ _ (mk_dc_racks_inv info hosts)). exists h.
+    split; [apply hosts_eq; exact Hep|tauto].
+  Qed.
+
+  (* a new host whose iteration changes nothing in the driver changes nothing in Cassandra's loop *)
+  Lemma visit_inactive visited m s h :
+    minv info dcs dcr m -> rel visited m s -> vinv m visited -> ~ In h visited -> In h endpoints ->
+    (forall x, In x visited -> In x endpoints) ->
     ~ active info dcs dcr m h -> s_visit s h = s.
   Proof.
-    intros Hm Hr Hf Hep Hna. unfold visit. rewrite lookup_aget.
+    intros Hm Hr Hv Hnv Hep Hvis Hna. unfold visit. rewrite lookup_aget.
     destruct (aget dcs (dc_of h)) as [rf|] eqn:Ea; [|reflexivity].
     assert (Hrf : getz dcs (dc_of h) = rf) by (unfold getz; rewrite Ea; reflexivity).
-    destruct (fr_rest m _ Hf h (or_introl eq_refl)) as [Hnin _].
-    rewrite (suff_fresh rf (dc_of h) (s_replicas s) h); try (rewrite <- (rl_reps m s Hr)); auto;
-      try apply (fr_nodup m _ Hf); try apply (fr_incl m _ Hf).
+    assert (Hnin : ~ In h (ns_replicas m)) by (intros H; apply Hnv, (vi_reps _ _ Hv); exact H).
+    rewrite (suff_fresh rf (dc_of h) (s_replicas s) h); try (rewrite <- (rl_reps _ m s Hr)); auto;
+      try apply (vi_nodup _ _ Hv).
+    2:{ intros x Hx. apply Hvis, (vi_reps _ _ Hv). exact Hx. }
     rewrite <- (mi_count info dcs dcr m Hm).
     destruct (getz (ns_count m) (dc_of h) >=? rf) eqn:E; [reflexivity|].
     exfalso. apply Hna. split; [|split].
     - pose proof (mi_count info dcs dcr m Hm (dc_of h)). lia.
     - lia.
-    - apply (ri_in info _ _ (mk_dc_racks_inv info hosts)). exists h. split; [apply hosts_eq; exact Hep|tauto].
+    - apply rack_known. exact Hep.
   Qed.
 
-  (* an iteration that changes the driver's state changes Cassandra's in the same way *)
-  Lemma visit_active m s h rest m' :
-    minv info dcs dcr m -> rel m s -> fresh m (h :: rest) -> NoDup (h :: rest) -> In h endpoints ->
-    active info dcs dcr m h -> step_kind info dcs dcr m h m' ->
-    rel m' (s_visit s h) /\ fresh m' rest.
+  Lemma kinv_inactive visited m h :
+    kinv m visited -> In h endpoints -> ~ active info dcs dcr m h -> kinv m (h :: visited).
   Proof.
-    intros Hm Hr Hf Hnd Hep [Hrf [Hlt Hrack]] Hk.
-    destruct Hr as [Rr Rs Rk]. destruct Hf as [F1 F2 F3 F4 F5 F6].
-    destruct (F3 h (or_introl eq_refl)) as [Hnin Hnsk].
-    inversion Hnd as [|? ? Hhrest Hndrest]; subst.
-    assert (Hrest : forall x, In x rest -> x <> h) by (intros x Hx ->; contradiction).
+    intros [K1 K2] Hep Hna. split; [|exact K2].
+    intros x [<-|Hx] H1 H2; [|apply K1; assumption].
+    exfalso. apply Hna. split; [exact H1|]. split; [exact H2|apply rack_known; exact Hep].
+  Qed.
+
+  (* a new host whose iteration changes the driver's state changes Cassandra's in the same way *)
+  Lemma visit_active visited m s h m' :
+    minv info dcs dcr m -> rel visited m s -> vinv m visited -> kinv m visited ->
+    ~ In h visited -> In h endpoints -> (forall x, In x visited -> In x endpoints) ->
+    active info dcs dcr m h -> step_kind info dcs dcr m h m' ->
+    rel (h :: visited) m' (s_visit s h) /\ kinv m' (h :: visited).
+  Proof.
+    intros Hm Hr Hv [K1 K2] Hnv Hep Hvis [Hrf [Hlt Hrack]] Hk.
+    destruct Hr as [Rr Rs Rk Rn Rv Rd]. destruct Hv as [F1 F2 F3 F4 F5].
+    assert (Hnin : ~ In h (ns_replicas m)) by (intros H; apply Hnv, F2; exact H).
+    assert (Hnsk : forall dc, ~ In h (getl (ns_skipped m) dc)) by (intros dc H; apply Hnv, (F3 dc); exact H).
+    assert (Hnss : forall dc, ~ In h (s_skipped s dc)) by (intros dc H; apply Hnv, (Rv dc); exact H).
+    assert (F2e : incl (ns_replicas m) endpoints) by (intros x Hx; apply Hvis, F2; exact Hx).
     assert (Ea : aget dcs (dc_of h) = Some (getz dcs (dc_of h))).
     { unfold getz in *. destruct (aget dcs (dc_of h)); [reflexivity|congruence]. }
     assert (Hsuff : s_suff (getz dcs (dc_of h)) (dc_of h) (s_replicas s) = false).
     { rewrite (suff_fresh (getz dcs (dc_of h)) (dc_of h) (s_replicas s) h); try (rewrite <- Rr); auto.
       rewrite <- (mi_count info dcs dcr m Hm). lia. }
+    (* the old hosts keep what they had *)
+    assert (Kold : forall (c' : amap Z) (seen' : amap (list (list Z))) (reps' : list Z) (sk' : amap (list Z)),
+              (forall dc, getz (ns_count m) dc <= getz c' dc) ->
+              (forall dc, incl (getl (ns_seen m) dc) (getl seen' dc)) ->
+              incl (ns_replicas m) reps' ->
+              (forall dc x, In x (getl (ns_skipped m) dc) -> In x reps' \/ In x (getl sk' dc)) ->
+              forall x, In x visited -> getz dcs (dc_of x) <> 0 -> getz c' (dc_of x) < getz dcs (dc_of x) ->
+              In (rack_of x) (getl seen' (dc_of x)) /\ (In x reps' \/ In x (getl sk' (dc_of x)))).
+    { intros c' seen' reps' sk' Hc Hse Hre Hsk x Hx H1 H2.
+      destruct (K1 x Hx H1) as [G1 G2]; [specialize (Hc (dc_of x)); lia|].
+      split; [apply Hse; exact G1|]. destruct G2 as [G2|G2]; [left; apply Hre; exact G2|apply Hsk; exact G2]. }
     unfold visit. rewrite lookup_aget, Ea, Hsuff. rewrite <- racks_length, <- Rs.
     destruct Hk as [Hs Hl|taken Hs Ht|Hs Hl].
     - (* every rack used *)
       rewrite Hl, Nat.eqb_refl. rewrite <- Rr, (lhs_add_fresh h _ Hnin). split.
-      + split; simpl; auto.
-      + split; simpl; auto.
-        * apply NoDup_snoc; assumption.
-        * intros x Hx. apply in_app_iff in Hx. destruct Hx as [Hx|[<-|[]]]; auto.
-        * intros x Hx. destruct (F3 x (or_intror Hx)) as [G1 G2]. split; [|exact G2].
-          rewrite in_app_iff. simpl. intros [H|[H|[]]]; [contradiction|]. apply (Hrest x Hx). congruence.
-        * intros dc' x Hx. rewrite in_app_iff. simpl. intros [H|[H|[]]]; [apply (F5 dc' x Hx H)|].
-          subst x. apply (Hnsk dc' Hx).
+      + split; cbn [ns_replicas ns_seen ns_skipped ns_count s_replicas s_seen s_skipped]; auto.
+        * intros dc Hne. rewrite (Rk dc Hne), <- Rr. symmetry. apply filter_notin_more.
+          intros x Hx [<-|[]]. apply (Hnss dc Hx).
+        * intros dc x Hx. right. apply (Rv dc). exact Hx.
+      + split; cbn [ns_replicas ns_seen ns_skipped ns_count].
+        * intros x [<-|Hx] H1 H2.
+          -- split; [apply smem_In; exact Hs|left; apply in_or_app; right; left; reflexivity].
+          -- apply (Kold (aset (ns_count m) (dc_of h) (getz (ns_count m) (dc_of h) + 1)) (ns_seen m)
+                         (ns_replicas m ++ [h]) (ns_skipped m)); auto.
+             ++ intros dc. destruct (str_eq_dec dc (dc_of h)) as [->|Hne];
+                  [rewrite getz_aset_same; lia|rewrite getz_aset_other by exact Hne; lia].
+             ++ intros dc y Hy. exact Hy.
+             ++ intros y Hy. apply in_or_app. left. exact Hy.
+        * intros dc Hall Hc. apply K2; [exact Hall|].
+          destruct (str_eq_dec dc (dc_of h)) as [->|Hne];
+            [rewrite getz_aset_same in Hc; lia|rewrite getz_aset_other in Hc by exact Hne; exact Hc].
     - (* a new rack *)
       assert (Hlt' : (length (getl (ns_seen m) (dc_of h)) < length (getl dcr (dc_of h)))%nat).
-      { assert (H : (length ((rack_of h) :: getl (ns_seen m) (dc_of h)) <= length (getl dcr (dc_of h)))%nat).
+      { assert (H : (length (rack_of h :: getl (ns_seen m) (dc_of h)) <= length (getl dcr (dc_of h)))%nat).
         { apply NoDup_incl_length.
           - constructor; [apply smem_false; exact Hs|apply (mi_seen_nodup info dcs dcr m Hm)].
           - intros x [<-|Hx]; [exact Hrack|apply (mi_seen_incl info dcs dcr m Hm (dc_of h)); exact Hx]. }
@@ -199,27 +264,28 @@ Section Refine.
       assert (E1 : (length (getl (ns_seen m) (dc_of h)) =? length (getl dcr (dc_of h)))%nat = false) by (apply Nat.eqb_neq; lia).
       rewrite E1. change (set_has (rack_of h) (getl (ns_seen m) (dc_of h))) with (smem (rack_of h) (getl (ns_seen m) (dc_of h))). rewrite Hs.
       rewrite (set_add_fresh (rack_of h) _ Hs). rewrite <- Rr, (lhs_add_fresh h _ Hnin).
-      rewrite <- (Rk (dc_of h)) by lia.
       set (sk := getl (ns_skipped m) (dc_of h)) in *.
+      set (E := (length (getl (ns_seen m) (dc_of h) ++ [rack_of h]) =? length (getl dcr (dc_of h)))%nat) in *.
+      assert (Hsk_eq : sk = filter (notin (ns_replicas m ++ [h])) (s_skipped s (dc_of h))).
+      { unfold sk. rewrite (Rk (dc_of h)) by lia. rewrite <- Rr. symmetry. apply filter_notin_more.
+        intros x Hx [<-|[]]. apply (Hnss (dc_of h) Hx). }
       assert (Hcount : Z.of_nat (count_dc info (dc_of h) (ns_replicas m ++ [h])) = getz (ns_count m) (dc_of h) + 1).
       { rewrite count_dc_app. rewrite count_dc_one_same. rewrite (mi_count info dcs dcr m Hm). lia. }
-      assert (Htake : (if (length (getl (ns_seen m) (dc_of h) ++ [(rack_of h)]) =? length (getl dcr (dc_of h)))%nat
-                       then take_skipped dc_of endpoints (getz dcs (dc_of h)) (dc_of h) sk (ns_replicas m ++ [h])
+      assert (Htake : (if E then take_skipped dc_of endpoints (getz dcs (dc_of h)) (dc_of h) (s_skipped s (dc_of h)) (ns_replicas m ++ [h])
                        else ns_replicas m ++ [h]) = ns_replicas m ++ [h] ++ taken).
-      { subst taken. destruct (length (getl (ns_seen m) (dc_of h) ++ [(rack_of h)]) =? length (getl dcr (dc_of h)))%nat.
-        - rewrite take_skipped_eq.
+      { rewrite Ht. destruct E.
+        - rewrite take_skipped_filter by apply Rn. rewrite <- Hsk_eq. rewrite take_skipped_eq.
           + rewrite Hcount, <- app_assoc. reflexivity.
           + apply F4.
-          + intros x Hx. split; [apply (mi_skip_dc info dcs dcr m Hm (dc_of h) x Hx)|]. split; [apply (F6 (dc_of h) x Hx)|].
+          + intros x Hx. split; [apply (mi_skip_dc info dcs dcr m Hm (dc_of h) x Hx)|].
+            split; [apply Hvis, (F3 (dc_of h)); exact Hx|].
             rewrite in_app_iff. simpl. intros [H|[H|[]]]; [apply (F5 (dc_of h) x Hx H)|]. subst x. apply (Hnsk (dc_of h) Hx).
           + apply NoDup_snoc; assumption.
           + intros x Hx. apply in_app_iff in Hx. destruct Hx as [Hx|[<-|[]]]; auto.
         - rewrite app_nil_r. reflexivity. }
       rewrite Htake.
-      assert (Htk : incl taken sk).
-      { rewrite Ht. destruct (length (getl (ns_seen m) (dc_of h) ++ [rack_of h]) =? length (getl dcr (dc_of h)))%nat; [apply drain_incl|intros x []]. }
-      assert (Htk_first : taken = firstn (length taken) sk).
-      { rewrite Ht. destruct (length (getl (ns_seen m) (dc_of h) ++ [rack_of h]) =? length (getl dcr (dc_of h)))%nat; [apply drain_firstn|reflexivity]. }
+      assert (Htk : incl taken sk) by (rewrite Ht; destruct E; [apply drain_incl|intros x []]).
+      assert (Htk_first : taken = firstn (length taken) sk) by (rewrite Ht; destruct E; [apply drain_firstn|reflexivity]).
       split.
       + split; cbn [ns_replicas ns_seen ns_skipped ns_count s_replicas s_seen s_skipped].
         * reflexivity.
@@ -227,89 +293,146 @@ Section Refine.
           -- rewrite getl_aset_same, upd_same. reflexivity.
           -- rewrite getl_aset_other, upd_other by exact Hne. apply Rs.
         * intros dc'. destruct (str_eq_dec dc' (dc_of h)) as [->|Hne].
-          -- rewrite getl_aset_same. intros Hneq.
-             destruct (length (getl (ns_seen m) (dc_of h) ++ [(rack_of h)]) =? length (getl dcr (dc_of h)))%nat eqn:E2.
+          -- rewrite getl_aset_same. intros Hneq. destruct E eqn:E2.
              ++ apply Nat.eqb_eq in E2. contradiction.
-             ++ apply Rk. lia.
+             ++ rewrite Ht, app_nil_r. exact Hsk_eq.
           -- rewrite getl_aset_other by exact Hne. intros Hneq.
-             destruct (length (getl (ns_seen m) (dc_of h) ++ [(rack_of h)]) =? length (getl dcr (dc_of h)))%nat.
-             ++ rewrite getl_aset_other by exact Hne. apply Rk. exact Hneq.
-             ++ apply Rk. exact Hneq.
-      + assert (Hnd_new : NoDup (ns_replicas m ++ [h] ++ taken)).
-        { rewrite app_assoc. apply NoDup_app_intro.
-          - apply NoDup_snoc; assumption.
-          - rewrite Htk_first. apply NoDup_firstn. apply F4.
-          - intros x Hx1 Hx2. apply Htk in Hx2. apply in_app_iff in Hx1. destruct Hx1 as [Hx1|[<-|[]]].
-            + apply (F5 (dc_of h) x Hx2 Hx1).
-            + apply (Hnsk (dc_of h) Hx2). }
-        assert (Hsk_new : forall dc' x,
-                  In x (getl (if (length (getl (ns_seen m) (dc_of h) ++ [(rack_of h)]) =? length (getl dcr (dc_of h)))%nat
-                              then aset (ns_skipped m) (dc_of h) (skipn (length taken) sk) else ns_skipped m) dc')
-                  -> In x (getl (ns_skipped m) dc') /\ (dc' = (dc_of h) -> ~ In x taken)).
-        { intros dc' x. destruct (length (getl (ns_seen m) (dc_of h) ++ [(rack_of h)]) =? length (getl dcr (dc_of h)))%nat eqn:E2.
-          - destruct (str_eq_dec dc' (dc_of h)) as [->|Hne].
-            + rewrite getl_aset_same. intros Hx. split; [apply In_skipn in Hx; exact Hx|].
-              intros _ Hx2. rewrite Htk_first in Hx2. apply (firstn_skipn_disjoint _ _ _ (F4 (dc_of h)) Hx2 Hx).
-            + rewrite getl_aset_other by exact Hne. intros Hx. split; [exact Hx|congruence].
-          - intros Hx. split; [exact Hx|]. intros _. subst taken. intros []. }
-        split; cbn [ns_replicas ns_seen ns_skipped ns_count].
-        * exact Hnd_new.
-        * intros x Hx. rewrite !in_app_iff in Hx. destruct Hx as [Hx|[[<-|[]]|Hx]]; auto. apply (F6 (dc_of h)). apply Htk. exact Hx.
-        * intros x Hx. destruct (F3 x (or_intror Hx)) as [G1 G2]. split.
-          -- rewrite !in_app_iff. simpl. intros [H|[[H|[]]|H]]; [contradiction|apply (Hrest x Hx); congruence|].
-             apply (G2 (dc_of h)). apply Htk. exact H.
-          -- intros dc' Hx'. apply Hsk_new in Hx'. apply (G2 dc'). tauto.
-        * intros dc'. destruct (length (getl (ns_seen m) (dc_of h) ++ [(rack_of h)]) =? length (getl dcr (dc_of h)))%nat; [|apply F4].
-          destruct (str_eq_dec dc' (dc_of h)) as [->|Hne].
-          -- rewrite getl_aset_same. apply NoDup_skipn. apply F4.
-          -- rewrite getl_aset_other by exact Hne. apply F4.
-        * intros dc' x Hx. destruct (Hsk_new dc' x Hx) as [G1 G2].
-          rewrite !in_app_iff. simpl. intros [H|[[H|[]]|H]].
-          -- apply (F5 dc' x G1 H).
-          -- subst x. apply (Hnsk dc' G1).
-          -- destruct (str_eq_dec dc' (dc_of h)) as [->|Hne]; [apply G2; auto|].
-             apply Hne. rewrite <- (mi_skip_dc info dcs dcr m Hm dc' x G1).
-             apply (mi_skip_dc info dcs dcr m Hm (dc_of h) x). apply Htk. exact H.
-        * intros dc' x Hx. apply Hsk_new in Hx. apply (F6 dc'). tauto.
+             assert (Hsame : getl (if E then aset (ns_skipped m) (dc_of h) (skipn (length taken) sk) else ns_skipped m) dc'
+                             = getl (ns_skipped m) dc').
+             { destruct E; [rewrite getl_aset_other by exact Hne|]; reflexivity. }
+             rewrite Hsame, (Rk dc' Hneq), <- Rr. symmetry. apply filter_notin_more.
+             intros x Hx Hx2. apply Rd in Hx. rewrite !in_app_iff in Hx2. simpl in Hx2.
+             destruct Hx2 as [[<-|[]]|Hx2]; [apply Hne; symmetry; exact Hx|].
+             apply Hne. rewrite <- Hx. apply (mi_skip_dc info dcs dcr m Hm (dc_of h) x). apply Htk. exact Hx2.
+        * exact Rn.
+        * intros dc x Hx. right. apply (Rv dc). exact Hx.
+        * exact Rd.
+      + split; cbn [ns_replicas ns_seen ns_skipped ns_count].
+        * intros x [<-|Hx] H1 H2.
+          -- rewrite getl_aset_same. split; [apply in_or_app; right; left; reflexivity|].
+             left. apply in_or_app. right. left. reflexivity.
+          -- apply (Kold (aset (ns_count m) (dc_of h) (getz (ns_count m) (dc_of h) + 1 + Z.of_nat (length taken)))
+                         (aset (ns_seen m) (dc_of h) (getl (ns_seen m) (dc_of h) ++ [rack_of h]))
+                         (ns_replicas m ++ [h] ++ taken)
+                         (if E then aset (ns_skipped m) (dc_of h) (skipn (length taken) sk) else ns_skipped m)); auto.
+             ++ intros dc. destruct (str_eq_dec dc (dc_of h)) as [->|Hne];
+                  [rewrite getz_aset_same; lia|rewrite getz_aset_other by exact Hne; lia].
+             ++ intros dc. destruct (str_eq_dec dc (dc_of h)) as [->|Hne];
+                  [rewrite getl_aset_same; intros y Hy; apply in_or_app; left; exact Hy
+                  |rewrite getl_aset_other by exact Hne; intros y Hy; exact Hy].
+             ++ intros y Hy. apply in_or_app. left. exact Hy.
+             ++ intros dc y Hy. destruct E; [|right; exact Hy].
+                destruct (str_eq_dec dc (dc_of h)) as [->|Hne].
+                ** rewrite getl_aset_same. destruct (In_firstn_or_skipn (length taken) sk y Hy) as [G|G]; [|right; exact G].
+                   left. rewrite !in_app_iff. right. right. rewrite Htk_first. exact G.
+                ** rewrite getl_aset_other by exact Hne. right. exact Hy.
+        * intros dc. destruct (str_eq_dec dc (dc_of h)) as [->|Hne].
+          -- rewrite !getl_aset_same, getz_aset_same. intros Hall Hc. destruct E eqn:E2.
+             ++ rewrite getl_aset_same. rewrite Ht in Hc |- *.
+                rewrite (drain_exhaust sk _ _ Hc). apply skipn_all.
+             ++ apply Nat.eqb_neq in E2. contradiction.
+          -- rewrite getl_aset_other, getz_aset_other by exact Hne. intros Hall Hc.
+             assert (Hsame : getl (if E then aset (ns_skipped m) (dc_of h) (skipn (length taken) sk) else ns_skipped m) dc
+                             = getl (ns_skipped m) dc).
+             { destruct E; [rewrite getl_aset_other by exact Hne|]; reflexivity. }
+             rewrite Hsame. apply K2; assumption.
     - (* rack already used, other racks still unused *)
       assert (E1 : (length (getl (ns_seen m) (dc_of h)) =? length (getl dcr (dc_of h)))%nat = false) by (apply Nat.eqb_neq; exact Hl).
       rewrite E1. change (set_has (rack_of h) (getl (ns_seen m) (dc_of h))) with (smem (rack_of h) (getl (ns_seen m) (dc_of h))). rewrite Hs.
-      rewrite <- (Rk (dc_of h) Hl). rewrite (lhs_add_fresh h _ (Hnsk (dc_of h))). split.
+      rewrite (lhs_add_fresh h _ (Hnss (dc_of h))). split.
       + split; cbn [ns_replicas ns_seen ns_skipped ns_count s_replicas s_seen s_skipped]; auto.
-        intros dc'. destruct (str_eq_dec dc' (dc_of h)) as [->|Hne].
-        * rewrite getl_aset_same, upd_same. reflexivity.
-        * rewrite getl_aset_other, upd_other by exact Hne. apply Rk.
-      + split; cbn [ns_replicas ns_seen ns_skipped ns_count]; auto.
-        * intros x Hx. destruct (F3 x (or_intror Hx)) as [G1 G2]. split; [exact G1|].
-          intros dc'. destruct (str_eq_dec dc' (dc_of h)) as [->|Hne].
-          -- rewrite getl_aset_same, in_app_iff. simpl. intros [H|[H|[]]]; [apply (G2 (dc_of h) H)|apply (Hrest x Hx); congruence].
-          -- rewrite getl_aset_other by exact Hne. apply G2.
         * intros dc'. destruct (str_eq_dec dc' (dc_of h)) as [->|Hne].
-          -- rewrite getl_aset_same. apply NoDup_snoc; [apply F4|apply Hnsk].
-          -- rewrite getl_aset_other by exact Hne. apply F4.
+          -- rewrite getl_aset_same, upd_same. intros _. rewrite filter_app. simpl.
+             assert (En : notin (s_replicas s) h = true) by (apply notin_true; rewrite <- Rr; exact Hnin).
+             rewrite En, <- (Rk (dc_of h) Hl). reflexivity.
+          -- rewrite getl_aset_other, upd_other by exact Hne. apply Rk.
+        * intros dc'. destruct (str_eq_dec dc' (dc_of h)) as [->|Hne].
+          -- rewrite upd_same. apply NoDup_snoc; [apply Rn|apply Hnss].
+          -- rewrite upd_other by exact Hne. apply Rn.
+        * intros dc'. destruct (str_eq_dec dc' (dc_of h)) as [->|Hne].
+          -- rewrite upd_same. intros x Hx. apply in_app_iff in Hx.
+             destruct Hx as [Hx|[<-|[]]]; [right; apply (Rv (dc_of h)); exact Hx|left; reflexivity].
+          -- rewrite upd_other by exact Hne. intros x Hx. right. apply (Rv dc'). exact Hx.
         * intros dc' x. destruct (str_eq_dec dc' (dc_of h)) as [->|Hne].
-          -- rewrite getl_aset_same, in_app_iff. simpl. intros [H|[<-|[]]]; [apply (F5 (dc_of h) x H)|exact Hnin].
-          -- rewrite getl_aset_other by exact Hne. apply F5.
-        * intros dc'. destruct (str_eq_dec dc' (dc_of h)) as [->|Hne].
-          -- rewrite getl_aset_same. intros x Hx. apply in_app_iff in Hx. destruct Hx as [Hx|[<-|[]]]; [apply (F6 (dc_of h) x Hx)|exact Hep].
-          -- rewrite getl_aset_other by exact Hne. apply F6.
+          -- rewrite upd_same, in_app_iff. simpl. intros [Hx|[<-|[]]]; [apply Rd; exact Hx|reflexivity].
+          -- rewrite upd_other by exact Hne. apply Rd.
+      + split; cbn [ns_replicas ns_seen ns_skipped ns_count].
+        * intros x [<-|Hx] H1 H2.
+          -- split; [apply smem_In; exact Hs|]. right. rewrite getl_aset_same. apply in_or_app. right. left. reflexivity.
+          -- apply (Kold (ns_count m) (ns_seen m) (ns_replicas m)
+                         (aset (ns_skipped m) (dc_of h) (getl (ns_skipped m) (dc_of h) ++ [h]))); auto.
+             ++ intros dc. lia.
+             ++ intros dc y Hy. exact Hy.
+             ++ intros y Hy. exact Hy.
+             ++ intros dc y Hy. right. destruct (str_eq_dec dc (dc_of h)) as [->|Hne];
+                  [rewrite getl_aset_same; apply in_or_app; left; exact Hy|rewrite getl_aset_other by exact Hne; exact Hy].
+        * intros dc Hall Hc. destruct (str_eq_dec dc (dc_of h)) as [->|Hne]; [contradiction|].
+          rewrite getl_aset_other by exact Hne. apply K2; assumption.
   Qed.
 
-  Lemma run_rel walk : forall m s,
-    minv info dcs dcr m -> rel m s -> fresh m walk -> NoDup walk -> incl walk endpoints ->
-    exists m', nts_run info dcs dcr walk m = Ok m' /\ rel m' (fold_left s_visit walk s) /\ fresh m' [].
+  (* another token of a host the driver has been through: nothing Cassandra does with it shows *)
+  Lemma visit_revisit visited m s h :
+    minv info dcs dcr m -> rel visited m s -> kinv m visited -> In h visited ->
+    rel visited m (s_visit s h).
   Proof.
-    induction walk as [|h rest IH]; intros m s Hm Hr Hf Hnd Hincl; simpl.
-    - exists m. split; [reflexivity|]. split; [exact Hr|exact Hf].
+    intros Hm Hr [K1 K2] Hv. pose proof Hr as [Rr Rs Rk Rn Rv Rd].
+    unfold visit. rewrite lookup_aget.
+    destruct (aget dcs (dc_of h)) as [rf|] eqn:Ea; [|exact Hr].
+    assert (Hrf : getz dcs (dc_of h) = rf) by (unfold getz; rewrite Ea; reflexivity).
+    destruct (s_suff rf (dc_of h) (s_replicas s)) eqn:Es; [exact Hr|].
+    assert (Hc : getz (ns_count m) (dc_of h) < rf).
+    { unfold sufficient in Es. rewrite in_dc_count, <- Rr, <- (mi_count info dcs dcr m Hm) in Es. lia. }
+    assert (Hnz : getz dcs (dc_of h) <> 0) by (pose proof (mi_count info dcs dcr m Hm (dc_of h)); lia).
+    destruct (K1 h Hv Hnz) as [G1 G2]; [lia|].
+    rewrite <- racks_length, <- Rs.
+    destruct (length (getl (ns_seen m) (dc_of h)) =? length (getl dcr (dc_of h)))%nat eqn:E.
+    - apply Nat.eqb_eq in E. rewrite (K2 (dc_of h) E) in G2 by lia.
+      destruct G2 as [G2|[]]. unfold lhs_add.
+      assert (Eh : lhs_has h (s_replicas s) = true) by (apply lhs_has_In; rewrite <- Rr; exact G2).
+      rewrite Eh. destruct s; exact Hr.
+    - apply Nat.eqb_neq in E.
+      assert (Eh : set_has (rack_of h) (getl (ns_seen m) (dc_of h)) = true) by (apply smem_In; exact G1).
+      rewrite Eh. split; cbn [s_replicas s_seen s_skipped]; auto.
+      + intros dc Hne. destruct (str_eq_dec dc (dc_of h)) as [->|Hnd]; [|rewrite upd_other by exact Hnd; apply Rk; exact Hne].
+        rewrite upd_same, (Rk (dc_of h) Hne). unfold lhs_add.
+        destruct (lhs_has h (s_skipped s (dc_of h))) eqn:E2; [reflexivity|].
+        rewrite filter_app. simpl.
+        assert (En : notin (s_replicas s) h = false).
+        { destruct (notin (s_replicas s) h) eqn:En; [|reflexivity]. exfalso.
+          apply notin_true in En. destruct G2 as [G2|G2]; [apply En; rewrite <- Rr; exact G2|].
+          rewrite (Rk (dc_of h) Hne) in G2. apply filter_In in G2. destruct G2 as [G2 _].
+          apply lhs_has_In in G2. congruence. }
+        rewrite En, app_nil_r. reflexivity.
+      + intros dc. destruct (str_eq_dec dc (dc_of h)) as [->|Hnd]; [|rewrite upd_other by exact Hnd; apply Rn].
+        rewrite upd_same. unfold lhs_add. destruct (lhs_has h (s_skipped s (dc_of h))) eqn:E2; [apply Rn|].
+        apply NoDup_snoc; [apply Rn|]. intros H. apply lhs_has_In in H. congruence.
+      + intros dc. destruct (str_eq_dec dc (dc_of h)) as [->|Hnd]; [|rewrite upd_other by exact Hnd; apply Rv].
+        rewrite upd_same. unfold lhs_add. destruct (lhs_has h (s_skipped s (dc_of h))); [apply Rv|].
+        intros x Hx. apply in_app_iff in Hx. destruct Hx as [Hx|[<-|[]]]; [apply (Rv (dc_of h)); exact Hx|exact Hv].
+      + intros dc x. destruct (str_eq_dec dc (dc_of h)) as [->|Hnd]; [|rewrite upd_other by exact Hnd; apply Rd].
+        rewrite upd_same. unfold lhs_add. destruct (lhs_has h (s_skipped s (dc_of h))); [apply Rd|].
+        rewrite in_app_iff. simpl. intros [Hx|[<-|[]]]; [apply Rd; exact Hx|reflexivity].
+  Qed.
+
+  Lemma run_rel walk : forall visited m s,
+    minv info dcs dcr m -> rel visited m s -> vinv m visited -> kinv m visited ->
+    incl walk endpoints -> (forall x, In x visited -> In x endpoints) ->
+    exists m', nts_run_v info dcs dcr walk visited m = Ok m' /\ ns_replicas m' = s_replicas (fold_left s_visit walk s).
+  Proof.
+    induction walk as [|h rest IH]; intros visited m s Hm Hr Hv Hk Hincl Hvis; simpl.
+    - exists m. split; [reflexivity|apply (rl_reps _ _ _ Hr)].
     - assert (Hep : In h endpoints) by (apply Hincl; left; reflexivity).
       assert (Hincl' : incl rest endpoints) by (intros x Hx; apply Hincl; right; exact Hx).
-      inversion Hnd as [|? ? Hh Hnd']; subst.
-      destruct (nts_step_ok info dcs dcr m h Hm) as [m1 [H1 [H2 H3]]]. rewrite H1.
-      destruct H3 as [[Hna ->]|[Ha Hk]].
-      + rewrite (visit_inactive m s h rest Hm Hr Hf Hep Hna).
-        apply IH; auto. eapply fresh_tail. exact Hf.
-      + destruct (visit_active m s h rest m1 Hm Hr Hf Hnd Hep Ha Hk) as [Hr1 Hf1].
-        apply IH; auto.
+      destruct (zmem h visited) eqn:Ez.
+      + apply zmem_In in Ez. apply IH; auto. apply visit_revisit; assumption.
+      + apply zmem_false in Ez.
+        assert (Hvis' : forall x, In x (h :: visited) -> In x endpoints) by (intros x [<-|Hx]; auto).
+        destruct (nts_step_ok info dcs dcr m h Hm) as [m1 [H1 [H2 H3]]]. rewrite H1.
+        destruct H3 as [[Hna ->]|[Ha Hkd]].
+        * rewrite (visit_inactive visited m s h Hm Hr Hv Ez Hep Hvis Hna).
+          apply IH; auto; [apply rel_more; exact Hr|apply vinv_more; exact Hv|apply kinv_inactive; assumption].
+        * destruct (visit_active visited m s h m1 Hm Hr Hv Hk Ez Hep Hvis Ha Hkd) as [Hr1 Hk1].
+          apply IH; auto. exact (vinv_step info dcs dcr m visited h m1 Hm Hv Ez Hkd).
   Qed.
 
   (* Cassandra's loop condition, too, only cuts iterations that change nothing *)
@@ -332,41 +455,39 @@ Section Refine.
     rewrite (visit_all_sufficient s x E). exact IHr.
   Qed.
 
-  Lemma fresh_state0 walk : fresh (nts_state0 dcs dcr) walk.
+  Lemma rel_state0 : rel [] (nts_state0 dcs dcr) nts_start.
   Proof.
-    assert (Hg : forall dc, @getl Z [] dc = []) by reflexivity.
-    split; cbn [nts_state0 ns_replicas ns_skipped].
-    - constructor.
-    - intros x [].
-    - intros x _. split; [intros []|]. intros dc. rewrite Hg. intros [].
-    - intros dc. rewrite Hg. constructor.
-    - intros dc x. rewrite Hg. intros [].
-    - intros dc x. rewrite Hg. intros [].
+    split; simpl; auto.
+    - intros dc. constructor.
+    - intros dc x [].
+    - intros dc x [].
   Qed.
 
-  Lemma rel_state0 : rel (nts_state0 dcs dcr) nts_start.
-  Proof. split; simpl; auto. Qed.
+  Lemma kinv_state0 : kinv (nts_state0 dcs dcr) [].
+  Proof. split; [intros h []|]. intros dc _ _. reflexivity. Qed.
 
-  (* the replicas of ring entry i are Cassandra's natural endpoints for the walk that starts at entry i *)
+  (* the replicas of ring entry i are Cassandra's natural endpoints for the walk that starts at entry i:
+     any number of tokens per host *)
   Lemma nts_token_eq_spec ring_hosts i th :
     nth_error ring_hosts i = Some th -> getz dcs (dc_of th) <> 0 ->
-    NoDup ring_hosts -> (forall h, In h ring_hosts <-> In h endpoints) ->
+    (forall h, In h ring_hosts <-> In h endpoints) ->
     nts_token info dcs dcr ring_hosts i th
     = Ok (nts_endpoints dc_of rack_of dcs endpoints (rotate i ring_hosts)).
   Proof.
-    intros Hn Hrf Hnd Hrh.
+    intros Hn Hrf Hrh.
     assert (Hin : In th hosts) by (apply hosts_eq, Hrh; eapply nth_error_In; exact Hn).
-    destruct (nts_token_ok info dcs hosts dcs_nonneg dcs_keys ring_hosts i th Hn Hin Hrf) as [st [suf [H1 [H2 [H3 H4]]]]].
+    destruct (nts_token_ok info dcs hosts dcs_nonneg dcs_keys ring_hosts i th Hn Hin Hrf) as [st [suf [H1 [H2 [H3 [H4 _]]]]]].
     rewrite H4. f_equal. rewrite <- H3.
-    destruct (run_rel (rotate i ring_hosts) (nts_state0 dcs dcr) (nts_start)) as [m' [K1 [K2 _]]].
+    destruct (run_rel (rotate i ring_hosts) [] (nts_state0 dcs dcr) (nts_start)) as [m' [K1 K2]].
     - apply minv_state0. exact dcs_nonneg.
     - apply rel_state0.
-    - apply fresh_state0.
-    - apply rotate_NoDup. exact Hnd.
+    - apply vinv_state0.
+    - apply kinv_state0.
     - intros x Hx. apply Hrh. apply rotate_In in Hx. exact Hx.
-    - rewrite H1 in K1. inversion K1; subst m'. unfold nts_endpoints. rewrite nts_walk_fold.
-      apply (rl_reps _ _ K2).
+    - intros x [].
+    - rewrite H1 in K1. inversion K1; subst m'. unfold nts_endpoints. rewrite nts_walk_fold. exact K2.
   Qed.
+
   Lemma count_le_endpoints dc reps :
     NoDup reps -> incl reps endpoints -> (count_dc info dc reps <= length (s_eps dc))%nat.
   Proof.
@@ -375,27 +496,4 @@ Section Refine.
     split; [apply Hincl; tauto|]. unfold name_eqb. tauto.
   Qed.
 
-  (* with one token per host an entry has no host twice, only ring hosts, and per DC at most min(rf, nodes) *)
-  Lemma nts_token_props ring_hosts i th :
-    nth_error ring_hosts i = Some th -> getz dcs (dc_of th) <> 0 ->
-    NoDup ring_hosts -> (forall h, In h ring_hosts <-> In h endpoints) ->
-    exists reps, nts_token info dcs dcr ring_hosts i th = Ok reps
-      /\ NoDup reps /\ incl reps endpoints
-      /\ forall dc, Z.of_nat (count_dc info dc reps) <= Z.min (getz dcs dc) (Z.of_nat (length (s_eps dc))).
-  Proof.
-    intros Hn Hrf Hnd Hrh.
-    assert (Hin : In th hosts) by (apply hosts_eq, Hrh; eapply nth_error_In; exact Hn).
-    destruct (nts_token_ok info dcs hosts dcs_nonneg dcs_keys ring_hosts i th Hn Hin Hrf) as [st [suf [H1 [H2 [H3 H4]]]]].
-    exists (th :: suf). split; [exact H4|]. rewrite <- H3.
-    destruct (run_rel (rotate i ring_hosts) (nts_state0 dcs dcr) (nts_start)) as [m' [K1 [_ K3]]].
-    - apply minv_state0. exact dcs_nonneg.
-    - apply rel_state0.
-    - apply fresh_state0.
-    - apply rotate_NoDup. exact Hnd.
-    - intros x Hx. apply Hrh. apply rotate_In in Hx. exact Hx.
-    - rewrite H1 in K1. inversion K1; subst m'.
-      split; [apply (fr_nodup _ _ K3)|]. split; [apply (fr_incl _ _ K3)|].
-      intros dc. pose proof (count_le_endpoints dc _ (fr_nodup _ _ K3) (fr_incl _ _ K3)) as Hc.
-      pose proof (mi_le info dcs dcr st H2 dc) as Hle. rewrite (mi_count info dcs dcr st H2) in Hle. lia.
-  Qed.
 End Refine.
